@@ -83,6 +83,12 @@ type Thread struct {
 	result  Val
 	name    string
 	preempt int
+	// thread mode
+	vc        []int
+	atSwitch  bool
+	waitMode  int // 1 RLock, 2 Lock, 3 WaitGroup.Wait, 4 channel
+	waitLock  lockID
+	waitChans []waitCh
 }
 
 func (t *Thread) clone() *Thread {
@@ -129,6 +135,8 @@ type Config struct {
 	MaxWall     int // seconds per job (0: 600)
 	Stubs       map[string]bool
 	TrackAlloc  bool
+	Ticks       int // thread mode: number of timer / ticker firings per path (default 1)
+	Preempt     int // thread mode: preemption bound (default 2)
 }
 
 type Engine struct {
@@ -164,7 +172,6 @@ type Engine struct {
 	initDone bool
 	inInit   bool
 	endHook  func(st *State)
-	races    *raceLog
 	allocSites map[string]int
 	lastModel *Model
 }
@@ -393,7 +400,9 @@ func (e *Engine) report(st *State, kind, fn, expr string, pos token.Pos, viol *T
 		src = e.srcLine(pos)
 	}
 	key := kind + "|" + fn + "|" + expr
-	if src != "" {
+	if kind == "data-race" || kind == "deadlock" {
+		key = kind + "|" + expr
+	} else if src != "" {
 		key = kind + "|" + fn + "|" + src
 		// one level of calling context (distinguishes callers of small helpers)
 		if th := st.threads[st.cur]; len(th.frames) >= 2 {
@@ -613,7 +622,11 @@ func (e *Engine) runPath(st *State) {
 			return
 		}
 		st.choiceSeq = 0
-		e.step(st, th)
+		if e.threadMode {
+			e.stepYield(st, th)
+		} else {
+			e.step(st, th)
+		}
 		st.steps++ // after the instruction: a clone taken inside it re-executes with the same step number
 	}
 	e.paths++
@@ -995,6 +1008,20 @@ func (e *Engine) step(st *State, th *Thread) {
 		}
 		d := fr.defers[len(fr.defers)-1]
 		fr.defers = fr.defers[:len(fr.defers)-1]
+		if e.threadMode {
+			func() {
+				defer func() {
+					if r := recover(); r != nil {
+						if _, ok := r.(threadYield); ok {
+							fr.defers = append(fr.defers, d) // deferred acquire yielded: run it again
+						}
+						panic(r)
+					}
+				}()
+				e.callDeferred(st, th, d)
+			}()
+			break
+		}
 		e.callDeferred(st, th, d)
 	case *ssa.Go:
 		e.doGo(st, th, fr, x)
@@ -1003,6 +1030,21 @@ func (e *Engine) step(st *State, th *Thread) {
 		e.exec(st, th, fr, in)
 		fr.ip++
 	}
+}
+
+// stepYield: one instruction in thread mode; a threadYield leaves the instruction unexecuted (it yields before
+// mutating anything) and returns to the scheduler.
+func (e *Engine) stepYield(st *State, th *Thread) {
+	defer func() {
+		if r := recover(); r != nil {
+			if _, ok := r.(threadYield); ok {
+				return
+			}
+			panic(r)
+		}
+	}()
+	e.step(st, th)
+	th.atSwitch = false // the instruction completed: its switch offer is consumed
 }
 
 func (e *Engine) popFrame(st *State, th *Thread, rv Val) {
@@ -1154,6 +1196,10 @@ func (e *Engine) doGo(st *State, th *Thread, fr *Frame, x *ssa.Go) {
 		e.noteAlloc(st, fr, "go "+fv.Fn.Name(), x.Pos())
 	}
 	if e.threadMode {
+		if e.skipGo(fv.Fn.String()) {
+			st.notes = append(st.notes, "goroutine not run: "+fv.Fn.String())
+			return
+		}
 		e.spawn(st, fv, args)
 		return
 	}
